@@ -104,8 +104,9 @@ CHECKS = {
              "sorting of distinct keys is permutation-invariant; via commutation of insertions on a strict total order), "
              "C08_print_canon, C08_cell_order_irrelevant (an image cell's written list depends only on which images the set "
              "holds: insertion sort by path is permutation-invariant for distinct paths). Tie: the same content is constructed in K interleavings and dumped twice in separate interpreter "
-             "processes under several PYTHONHASHSEED values for rpms, modules, extra files, images and composeinfo; all byte "
-             "sequences must coincide with each other and with the model's.",
+             "processes under several PYTHONHASHSEED values for rpms, modules, extra files, images, composeinfo and treeinfo; all byte "
+             "sequences must coincide with each other, and the model printers (print_json, print_ini) must reproduce them from "
+             "the parsed tree of what was written (the per-format section writers belong to C01-C04 and are not part of this tie).",
         note="Partial: arches and child id lists (sorted sets of strings) are covered by "
              "the correspondence and C08_sort_canonical's lemma family, not by a separately named theorem; treeinfo's sorted INI output is covered under C04/C17.",
         design="DESIGN.md section 6 C08"),
